@@ -526,6 +526,7 @@ def _build_any(kind, s):
         if s["mean_kind"] != "vector":
             kw["geometry"] = n
         return cuqi.distribution.Gaussian(mean, **kw)
+    c20.decoy_other_layout(s["pd"], s["n"], s["bc"], s["order"])
     return cuqi.distribution.GMRF(A(s["mean"]), s["prec"], bc_type=s["bc"], order=s["order"], geometry=c20.make_geom(s["pd"], s["n"]))
 
 
